@@ -1,27 +1,189 @@
-// Layer L for C12 — the induction over operation sequences. `T` is the abstract table state, `wf`
-// the representation invariant checked by the Kani obligations, `apply` one operation
-// (add / remove / re-key with arbitrary arguments). The hypothesis `step_preserves` is exactly what
-// each Kani obligation c12_table_*_preserves_the_invariant / c12_kbucket_add_* establishes for the
-// real code on an arbitrary well-formed pre-state.
-pub struct Op { pub kind: int, pub arg: int }
+// Layer L for C12 — the routing-table invariant over tables of ANY size and operation sequences of
+// ANY length, from the per-call contracts that the Kani obligations establish on the real code:
+//
+//   RoutingTable::add(n)  (c12_table_add_guards_then_delegates_to_the_bucket_at_its_distance):
+//     refuses n if n.id == own id, or if some entry with a DIFFERENT id clashes with it
+//     (same IP and (entry insecure or same 21-bit prefix): Node::already_exists, proved in
+//     c12_already_exists_is_the_per_ip_rule); otherwise the outcome is KBucket::add's
+//   KBucket::add(n) (c12_kbucket_add_*): the bucket becomes one of
+//     unchanged | old minus the entry with n's id, plus n | old plus n | old minus its stale head, plus n
+//   RoutingTable::remove(id): the table minus the entries with that id
+//   RoutingTable::reset_id(new): empty table under the new id, then add() for every old node
+//
+// Abstract entry: (id, ip, secure?, 21-bit prefix). The prefix is a function of the id.
 
-pub uninterp spec fn wf(t: int) -> bool;
-pub uninterp spec fn apply(t: int, op: Op) -> int;
+pub struct E { pub id: int, pub ip: int, pub secure: bool, pub prefix: int }
 
-pub open spec fn run(t: int, ops: Seq<Op>) -> int
-    decreases ops.len(),
-{
-    if ops.len() == 0 { t } else { run(apply(t, ops[0]), ops.subrange(1, ops.len() as int)) }
+pub open spec fn clash(n: E, e: E) -> bool {
+    e.id != n.id && e.ip == n.ip && (!e.secure || e.prefix == n.prefix)
 }
 
-proof fn invariant_holds_after_any_sequence(t: int, ops: Seq<Op>)
-    requires
-        wf(t),
-        forall|s: int, op: Op| wf(s) ==> #[trigger] wf(apply(s, op)),
-    ensures wf(run(t, ops)),
-    decreases ops.len(),
+// "per IP address at most one non-secure node and no two secure nodes sharing a 21-bit prefix"
+pub open spec fn ip_ok(a: E, b: E) -> bool {
+    a.ip == b.ip ==> ((a.secure || b.secure) && !(a.secure && b.secure && a.prefix == b.prefix))
+}
+
+pub open spec fn wf(own: int, s: Seq<E>) -> bool {
+    &&& forall|i: int| 0 <= i < s.len() ==> (#[trigger] s[i]).id != own
+    &&& forall|i: int, j: int| 0 <= i < s.len() && 0 <= j < s.len() && i != j ==> (#[trigger] s[i]).id != (#[trigger] s[j]).id && ip_ok(s[i], s[j])
+}
+
+pub open spec fn admissible(own: int, s: Seq<E>, n: E) -> bool {
+    n.id != own && forall|i: int| 0 <= i < s.len() ==> !clash(n, #[trigger] s[i])
+}
+
+pub open spec fn has_id(s: Seq<E>, id: int) -> bool {
+    exists|i: int| 0 <= i < s.len() && (#[trigger] s[i]).id == id
+}
+
+// removing any entry preserves the invariant (remove(); also the first half of refresh/replace)
+proof fn remove_preserves(own: int, s: Seq<E>, k: int)
+    requires wf(own, s), 0 <= k < s.len(),
+    ensures wf(own, s.remove(k)),
 {
-    if ops.len() > 0 {
-        invariant_holds_after_any_sequence(apply(t, ops[0]), ops.subrange(1, ops.len() as int));
+    let r = s.remove(k);
+    assert forall|i: int| 0 <= i < r.len() implies (#[trigger] r[i]).id != own by {
+        if i < k { assert(r[i] == s[i]); } else { assert(r[i] == s[i + 1]); }
     }
+    assert forall|i: int, j: int| 0 <= i < r.len() && 0 <= j < r.len() && i != j implies (#[trigger] r[i]).id != (#[trigger] r[j]).id && ip_ok(r[i], r[j]) by {
+        let ii = if i < k { i } else { i + 1 };
+        let jj = if j < k { j } else { j + 1 };
+        assert(r[i] == s[ii] && r[j] == s[jj] && ii != jj);
+    }
+}
+
+// appending an admissible node whose id is not present preserves the invariant
+proof fn push_preserves(own: int, s: Seq<E>, n: E)
+    requires wf(own, s), admissible(own, s, n), !has_id(s, n.id),
+    ensures wf(own, s.push(n)),
+{
+    let r = s.push(n);
+    assert forall|i: int| 0 <= i < r.len() implies (#[trigger] r[i]).id != own by {
+        if i < s.len() { assert(r[i] == s[i]); }
+    }
+    assert forall|i: int, j: int| 0 <= i < r.len() && 0 <= j < r.len() && i != j implies (#[trigger] r[i]).id != (#[trigger] r[j]).id && ip_ok(r[i], r[j]) by {
+        if i < s.len() && j < s.len() {
+            assert(r[i] == s[i] && r[j] == s[j]);
+        } else if i < s.len() {
+            assert(r[i] == s[i] && r[j] == n);
+            assert(!clash(n, s[i]));
+            assert(s[i].id != n.id);
+        } else {
+            assert(r[j] == s[j] && r[i] == n);
+            assert(!clash(n, s[j]));
+            assert(s[j].id != n.id);
+        }
+    }
+}
+
+// still admissible after an entry was taken out
+proof fn admissible_after_remove(own: int, s: Seq<E>, n: E, k: int)
+    requires admissible(own, s, n), 0 <= k < s.len(),
+    ensures admissible(own, s.remove(k), n),
+{
+    let r = s.remove(k);
+    assert forall|i: int| 0 <= i < r.len() implies !clash(n, #[trigger] r[i]) by {
+        if i < k { assert(r[i] == s[i]); } else { assert(r[i] == s[i + 1]); }
+    }
+}
+
+// (b) refresh: the entry with n's id is replaced by n
+proof fn refresh_preserves(own: int, s: Seq<E>, n: E, k: int)
+    requires wf(own, s), admissible(own, s, n), 0 <= k < s.len(), s[k].id == n.id,
+    ensures wf(own, s.remove(k).push(n)),
+{
+    remove_preserves(own, s, k);
+    admissible_after_remove(own, s, n, k);
+    let r = s.remove(k);
+    assert(!has_id(r, n.id)) by {
+        if has_id(r, n.id) {
+            let i = choose|i: int| 0 <= i < r.len() && (#[trigger] r[i]).id == n.id;
+            let ii = if i < k { i } else { i + 1 };
+            assert(r[i] == s[ii] && ii != k);
+            assert(s[ii].id != s[k].id);
+        }
+    }
+    push_preserves(own, r, n);
+}
+
+// (d) a full bucket replaces its stale head by n (n's id not present)
+proof fn replace_preserves(own: int, s: Seq<E>, n: E, h: int)
+    requires wf(own, s), admissible(own, s, n), 0 <= h < s.len(), !has_id(s, n.id),
+    ensures wf(own, s.remove(h).push(n)),
+{
+    remove_preserves(own, s, h);
+    admissible_after_remove(own, s, n, h);
+    let r = s.remove(h);
+    assert(!has_id(r, n.id)) by {
+        if has_id(r, n.id) {
+            let i = choose|i: int| 0 <= i < r.len() && (#[trigger] r[i]).id == n.id;
+            let ii = if i < h { i } else { i + 1 };
+            assert(r[i] == s[ii]);
+            assert(has_id(s, n.id));
+        }
+    }
+    push_preserves(own, r, n);
+}
+
+// ---- one operation, as a relation between the table before and after (all outcomes the contracts allow)
+pub enum Op { Add(E), Remove(int) }
+
+pub open spec fn add_outcome(own: int, s: Seq<E>, n: E, t: Seq<E>) -> bool {
+    ||| t == s
+    ||| (admissible(own, s, n) && exists|k: int| 0 <= k < s.len() && (#[trigger] s[k]).id == n.id && t == s.remove(k).push(n))
+    ||| (admissible(own, s, n) && !has_id(s, n.id) && t == s.push(n))
+    ||| (admissible(own, s, n) && !has_id(s, n.id) && exists|h: int| 0 <= h < s.len() && t == #[trigger] s.remove(h).push(n))
+}
+
+proof fn add_preserves(own: int, s: Seq<E>, n: E, t: Seq<E>)
+    requires wf(own, s), add_outcome(own, s, n, t),
+    ensures wf(own, t),
+{
+    if t == s {
+    } else if admissible(own, s, n) && exists|k: int| 0 <= k < s.len() && (#[trigger] s[k]).id == n.id && t == s.remove(k).push(n) {
+        let k = choose|k: int| 0 <= k < s.len() && (#[trigger] s[k]).id == n.id && t == s.remove(k).push(n);
+        refresh_preserves(own, s, n, k);
+    } else if admissible(own, s, n) && !has_id(s, n.id) && t == s.push(n) {
+        push_preserves(own, s, n);
+    } else {
+        let h = choose|h: int| 0 <= h < s.len() && t == #[trigger] s.remove(h).push(n);
+        replace_preserves(own, s, n, h);
+    }
+}
+
+// a history is a sequence of tables, each obtained from the previous one by an allowed outcome of
+// add (any node) or by removing an entry; the invariant holds at every point of every history
+pub open spec fn step(own: int, s: Seq<E>, t: Seq<E>) -> bool {
+    ||| exists|n: E| #[trigger] add_outcome(own, s, n, t)
+    ||| exists|k: int| 0 <= k < s.len() && t == #[trigger] s.remove(k)
+}
+
+pub open spec fn history(own: int, h: Seq<Seq<E>>) -> bool {
+    forall|i: int| 0 <= i < h.len() - 1 ==> step(own, #[trigger] h[i], h[i + 1])
+}
+
+proof fn invariant_holds_along_any_history(own: int, h: Seq<Seq<E>>, i: int)
+    requires h.len() > 0, wf(own, h[0]), history(own, h), 0 <= i < h.len(),
+    ensures wf(own, h[i]),
+    decreases i,
+{
+    if i > 0 {
+        invariant_holds_along_any_history(own, h, i - 1);
+        let s = h[i - 1];
+        let t = h[i];
+        assert(step(own, s, t));
+        if exists|n: E| #[trigger] add_outcome(own, s, n, t) {
+            let n = choose|n: E| #[trigger] add_outcome(own, s, n, t);
+            add_preserves(own, s, n, t);
+        } else {
+            let k = choose|k: int| 0 <= k < s.len() && t == #[trigger] s.remove(k);
+            remove_preserves(own, s, k);
+        }
+    }
+}
+
+// re-keying starts a new history from the empty table (which is well formed under any id)
+proof fn empty_table_is_well_formed(own: int)
+    ensures wf(own, Seq::<E>::empty()),
+{
 }
